@@ -1,4 +1,5 @@
 """C09 - generated pybind11 code is well-formed C++ (Engine E)."""
+from .. import rules_flow as RF
 from .. import rules_pybind as RP
 from .. import rules_inst as RI
 from .. import rules_alias as RA
@@ -32,3 +33,4 @@ def run(ctx, rep):
     rep.run(RI.rule_depth, ctx, rep, "W5")
     rep.run(RA.rule_mutate_only_fresh, ctx, rep, "W5", "gtwrap/template_instantiator", P1_EXEMPT, min_sites=20)
     rep.run(RP.rule_submodule_once, ctx, rep, "W6")
+    rep.run(RF.rule_locals_defined, ctx, rep, "U1", packages=("gtwrap/pybind_wrapper.py",), min_functions=3)
